@@ -779,6 +779,85 @@ func ruleLoaderAuthenticators(p *Program, r *Result) {
 	}
 }
 
+// ruleAuthenticatorPerUser: the authenticator factory is given the user's name and bakes it into the handler it
+// returns (the keychain is asked for that name's hash). A handler built for one user must therefore never be
+// handed to another: the loader keeps no container of handlers (a "build each distinct setting once" cache keyed
+// by type and options gives every member of a group the first member's handler), and the name handed to the
+// factory is the Name of the user being built.
+func ruleAuthenticatorPerUser(p *Program, r *Result) {
+	loaderPkg := modPath + "/cmds/server/loader"
+	nFactory := 0
+	for _, fn := range p.FuncsIn(func(path string) bool { return path == loaderPkg }) {
+		for _, b := range fn.Blocks {
+			for _, in := range b.Instrs {
+				var m ssa.Value
+				what := ""
+				switch x := in.(type) {
+				case *ssa.Lookup:
+					m, what = x.X, "read"
+				case *ssa.MapUpdate:
+					m, what = x.Map, "written"
+				default:
+					continue
+				}
+				mt, ok := m.Type().Underlying().(*types.Map)
+				if !ok || !typeIs(mt.Elem(), modPath, "Handler") {
+					continue
+				}
+				r.bad("R-PROVENANCE", fnKey(fn)+":handler-container", p.Pos(in.Pos()),
+					"a map of handlers is %s while the configuration is built: the authenticator factory bakes the user's name into the handler (the keychain is asked for that user's hash), so a handler kept under any other key (type, options, group) hands one user's authenticator - and password - to another", what)
+			}
+		}
+		for _, c := range allCalls(fn) {
+			call, ok := c.(*ssa.Call)
+			if !ok || !call.Common().IsInvoke() || call.Common().Method.Name() != "New" {
+				continue
+			}
+			sig := call.Common().Signature()
+			res := sig.Results()
+			if res.Len() != 2 || !typeIs(res.At(0).Type(), modPath, "Handler") || !isErrorType(res.At(1).Type()) || sig.Params().Len() != 2 {
+				continue
+			}
+			if bt, isStr := sig.Params().At(0).Type().Underlying().(*types.Basic); !isStr || bt.Info()&types.IsString == 0 {
+				continue
+			}
+			nFactory++
+			isUserName := func(v ssa.Value) bool {
+				lf, lb, ok := loadedField(v)
+				return ok && lf.Name() == "Name" && typeIs(derefT(lb.Type()), modPath+"/cmds/server/config", "User")
+			}
+			good := isUserName(call.Common().Args[0])
+			if pr, isParam := call.Common().Args[0].(*ssa.Parameter); isParam && !good {
+				// a helper that is handed the name: every static caller passes the Name of a user
+				if node := p.cgNode(fn); node != nil {
+					n := 0
+					good = true
+					for _, e := range node.In {
+						if e.Site == nil || e.Caller.Func == nil || p.isTestFile(e.Caller.Func.Pos()) {
+							continue
+						}
+						pi := paramIndex(fn, pr)
+						args := e.Site.Common().Args
+						if e.Site.Common().StaticCallee() != fn || pi < 0 || pi >= len(args) || !isUserName(args[pi]) {
+							good = false
+						}
+						n++
+					}
+					good = good && n > 0
+				}
+			}
+			r.cond(good, "R-PROVENANCE", fnKey(fn)+":authenticator-named-after-its-user", p.Pos(call.Pos()),
+				"the authenticator factory is called with the Name of the user being built",
+				"the name handed to the authenticator factory is not the Name field of the user being built")
+		}
+	}
+	if nFactory == 0 {
+		r.undecided("R-PROVENANCE", "authenticator-named-after-its-user", "-", "UNRESOLVED: no call of the authenticator factory (New(string, options) (Handler, error)) in the loader")
+	} else {
+		r.ok("R-PROVENANCE", "loader:no-handler-container", "-", false, "no map with Handler elements is read or written in the loader package: every handler goes from its factory call into the AAA of the user it was built for")
+	}
+}
+
 // blockReachWithin: blocks reachable from start without passing through `stop` (the loop iteration boundary).
 func blockReachWithin(start, stop *ssa.BasicBlock) map[*ssa.BasicBlock]bool {
 	// stop at the loop head that dominates the call: approximate the iteration boundary by blocking
